@@ -49,6 +49,11 @@ def check_text(text, intended=None, cols=None, deep=False):
     got = [N.from_impl(n) for n in inotes]
     if list(nd) != inotes:
         fail("iterating the same note data a second time yields different notes", "same notes", "different")
+    it = iter(nd)
+    next(it, None)
+    del it
+    if list(nd) != inotes:
+        fail("iterating again after an abandoned iteration yields different notes", "same notes", "different")
     if got != model_notes:
         fail("decoded notes differ from one-note-per-non-zero-cell reading", model_notes[:12], got[:12])
         return fails
@@ -246,11 +251,13 @@ def explore_shard(acc, shard):
             for other in ("0000", "1[5]001"):
                 for pos in (0, 1):
                     rows = [row, other] if pos == 0 else [other, row]
-                    for players in (1, 2):
+                    for players, indent, nl in ((1, "", "\n"), (2, "", "\n"), (1, " ", "\n"), (1, "\t  ", "\r\n")):
                         sections = [[rows]] * players
-                        text = N.render(sections)
+                        text = N.render(sections, indent=indent, nl=nl)
                         core.guard_cheap(acc, {"kind": "text", "text": text})
                         fails = check_text(text, N.intended_notes(sections), 4, deep=True)
+                        if indent and "[" in rows[1]:
+                            acc.outcome("indented keysounded row that is not the first of its measure")
                         acc.count("evaluations")
                         acc.count("states")
                         acc.count("transitions")
@@ -384,6 +391,7 @@ def explore(run):
     core.require(acc.outcomes["three player sections"] > 0, "no three-player text")
     core.require(acc.outcomes["CRLF text"] > 0, "no CRLF text")
     core.require(acc.outcomes["keysounded cell"] > 0, "no keysound")
+    core.require(acc.outcomes["indented keysounded row that is not the first of its measure"] > 0, "no indented keysounded row")
     core.require(acc.outcomes["sixteen columns"] > 0, "no 16-column row")
     core.require(acc.outcomes["pair across players"] > 0, "no cross-player pair")
     return run.finish(
